@@ -4,7 +4,11 @@
 set -u
 cd "$(dirname "$0")/.."
 VERIF_DIR="$(pwd)"; export VERIF_DIR
-ID="$1"; SEED="${VERIF_SEED:-0}"; RUNS="${FUZZ_RUNS:-400000}"
+ID="$1"; SEED="${VERIF_SEED:-0}"
+# fixed work: 400000 inputs for the world / meta-table target, 100000 for the (much slower: every class of
+# every sub-check, plans of up to 800 registrations) layout target; -max_total_time is only a safety net,
+# reaching it means fewer inputs (recorded in the evidence), never a verdict
+case "$ID" in C08|C09|C17) RUNS="${FUZZ_RUNS:-400000}";; *) RUNS="${FUZZ_RUNS:-100000}";; esac
 case " C01 C02 C03 C04 C07 C08 C09 C10 C13 C17 C18 C19 C20 " in *" $ID "*) ;; *) exit 0;; esac
 TD="${CARGO_TARGET_DIR:-$VERIF_DIR/target}"
 note() { python3 - "$VERIF_DIR/evidence/$ID.json" "$1" <<'PY'
@@ -36,7 +40,7 @@ for k in range(6):
         b.append((x>>16)&0xff)
     open(os.path.join(d,"golden%d"%k),"wb").write(bytes(b))
 PY
-ASAN_OPTIONS=detect_leaks=0 VERIF_PROP="$ID" timeout 3600 "$BIN" -fork=8 -runs="$RUNS" -seed=$((SEED+1)) -len_control=0 -max_len=1200 -detect_leaks=0 \
+ASAN_OPTIONS=detect_leaks=0 VERIF_PROP="$ID" timeout 3600 "$BIN" -fork=8 -runs="$RUNS" -max_total_time=1500 -seed=$((SEED+1)) -len_control=0 -max_len=1200 -detect_leaks=0 \
    -artifact_prefix="$ART" "$CORPUS" > "$TD/fuzz-$ID.log" 2>&1
 rc=$?
 iters=$(grep -oE "fuzzed for [0-9]+ iterations" "$TD/fuzz-$ID.log" | grep -oE "[0-9]+" | tail -1)
